@@ -47,6 +47,18 @@ class Evt:
     def jets(self) -> Iterable[Jet]: ...  # noqa
 
 
+def exc_for(c):
+    """what executor call c raises when the history says it raises: the class rotates (the library must hand on
+    whatever the executor raised, also exception types it raises itself elsewhere)"""
+    cls = (Boom, AttributeError, IndexError, KeyError, ValueError)[c % 5]
+    return cls(c)
+
+
+def is_exc_for(ex, c):
+    want = exc_for(c)
+    return type(ex) is type(want) and ex.args == want.args
+
+
 class Boom(Exception):
     pass
 
@@ -126,14 +138,21 @@ class History:
             async def execute_result_async(self, a, title=None):
                 return await hist._executor(self.idx, a, title)
 
-        self.DS = DS
+        class DSPlain(DS):
+            """the same dataset with an executor that is NOT a coroutine function: it hands back an awaitable
+            (a Task), as executors built on futures / run_in_executor do"""
+
+            def execute_result_async(self, a, title=None):
+                return asyncio.ensure_future(hist._executor(self.idx, a, title))
+
+        self.DS = lambda idx, typed, shadow=False: (DSPlain if (tid + abs(idx)) % 2 == 0 else DS)(idx, typed, shadow=shadow)
 
     async def _executor(self, target, a, title):
         if self.sync_reply is not None:
             kind, val, c = self.sync_reply
             self.execlog.append({"target": target, "node": a, "title": title, "fut": None})
             if kind == "raise":
-                raise Boom(c)
+                raise exc_for(c)
             return val
         fut = self.loop.create_future()
         self.execlog.append({"target": target, "node": a, "title": title, "fut": fut})
@@ -181,7 +200,7 @@ class History:
                             done.append({"c": c, "kind": "cancelled", "val": 0})
                         elif task.exception() is not None:
                             ex = task.exception()
-                            ok = isinstance(ex, Boom) and ex.args == (c,)
+                            ok = is_exc_for(ex, c)
                             done.append({"c": c, "kind": "raise" if ok else "raise-other", "val": 0})
                         else:
                             r = task.result()
@@ -270,7 +289,7 @@ class History:
             if act == "ExecReturn":
                 fut.set_result(a["v"])
             else:
-                fut.set_exception(Boom(a["c"]))
+                fut.set_exception(exc_for(a["c"]))
             self._step_loop()
             return
         s = self.streams[a["s"] - 1]
@@ -300,8 +319,8 @@ class History:
             try:
                 r = s.value(**kw)
                 self.sync_done.append({"c": a["c"], "kind": "ret", "val": r if isinstance(r, int) else -1})
-            except Boom as e:
-                self.sync_done.append({"c": a["c"], "kind": "raise" if e.args == (a["c"],) else "raise-other", "val": 0})
+            except Exception as e:
+                self.sync_done.append({"c": a["c"], "kind": "raise" if is_exc_for(e, a["c"]) else "raise-other", "val": 0})
             finally:
                 self.sync_reply = None
         elif act == "ValueStart":
